@@ -23,7 +23,7 @@ func verifSocksProxy() (*VerifTS, *Agent, func(s *socks.Socks, c *socks.VerifStr
 func H_c15_proxy() {
 	_, A, handle := verifSocksProxy()
 	g := nondet_bytes("greeting", nondet_choice("greeting-len", 5))
-	r := nondet_bytes("request", nondet_choice("request-len", verifC15ProxyReqMax+1))
+	r := nondet_bytes("request", nondet_choice("request-len", verif_bound("socks-proxy-request-max", verifC15ProxyReqMax, 12)+1))
 	// segmentation is covered by H_c15_greeting / H_c15_request; here each phase is one segment
 	c := &socks.VerifStreamConn{Phases: [][]byte{g, r}, NoSplit: true}
 	before := len(A.JobQueue)
@@ -228,3 +228,77 @@ func A_atyp(k int) byte {
 }
 
 const verifC15ProxyReqMax = 10
+
+// H_c15_socks_admin: operator commands socks list / kill / clear on an agent with 0..3
+// proxies, each with 0..2 connected clients: no panic, no table mutex left held, exactly the
+// addressed proxies disappear together with their client sockets, the others stay.
+func H_c15_socks_admin() {
+	ts, A, _, _ := verifStateS()
+	A.SocksCli = nil
+	n := nondet_choice("proxies", 4)
+	ports := []string{"1080", "1081", "1082"}
+	var conns [][]*VerifConn
+	nextID := int32(100)
+	for i := 0; i < n; i++ {
+		s := socks.NewSocks("0.0.0.0:" + ports[i])
+		k := nondet_choice("clients", 3)
+		var cs []*VerifConn
+		for j := 0; j < k; j++ {
+			c := &VerifConn{}
+			cs = append(cs, c)
+			s.Clients = append(s.Clients, nextID)
+			A.SocksClientAdd(nextID, c, 1, []byte{1, 2, 3, 4}, 80)
+			nextID++
+		}
+		conns = append(conns, cs)
+		A.SocksSvr = append(A.SocksSvr, &SocksServer{Server: s, Addr: ports[i]})
+	}
+	op := nondet_choice("op", 3)
+	target := nondet_choice("target", 4) // index into ports, 3 = unknown port
+	param := "9999"
+	if target < 3 {
+		param = ports[target]
+	}
+	cmds := []string{"socks list", "socks kill", "socks clear"}
+	msg := map[string]string{}
+	A.TaskPrepare(COMMAND_SOCKET, map[string]any{"TaskID": "0000000e", "Command": cmds[op], "Params": param}, &msg, "", ts)
+	verif_no_locks_held("socks admin command leaves no table mutex held")
+	for i := 0; i < n; i++ {
+		gone := false
+		if op == 2 {
+			gone = true
+		}
+		if op == 1 {
+			if target == i {
+				gone = true
+			}
+		}
+		present := false
+		for _, sv := range A.SocksSvr {
+			if sv.Addr == ports[i] {
+				present = true
+			}
+		}
+		verif_assert(present == !gone, "exactly the addressed proxies are removed from the proxy table")
+		for _, c := range conns[i] {
+			verif_assert(c.Closed == gone, "the client sockets of a removed proxy are closed, all others stay open")
+		}
+	}
+	want := 0
+	for i := 0; i < n; i++ {
+		keep := true
+		if op == 2 {
+			keep = false
+		}
+		if op == 1 {
+			if target == i {
+				keep = false
+			}
+		}
+		if keep {
+			want += len(conns[i])
+		}
+	}
+	verif_assert(len(A.SocksCli) == want, "closing a proxy removes its sockets from the socket table and no others")
+	verif_witness()
+}
